@@ -24,6 +24,10 @@ CHECKS["C11"] = ("exploration", "reference-model monitor (nested in-memory map w
   "sequential: every Get/GetByPrefix/BucketNames/iterator/Seek result and every error return of the real ldb driver on on-disk LevelDB is compared with the model across commit, rollback, error-return and close/reopen; concurrent: recorded call/return histories of whole transactions must be linearizable w.r.t. a sequential map",
   "trusts the 60-line map model and porcupine; iterators checked on committed data only; bucket re-creation error code not demanded", "§5 C11")
 
+CHECKS["C01"] = ("exploration", "reference-ledger monitor: wallet API observations at quiescent points vs a ledger recomputed from scratch from the node simulator's best chain (real mass-core chain database), over seeded block-tree histories delivered lock-step and in bursts",
+  "after every processed announcement (or burst of chain changes with the handler held) the full observation record of every wallet (UTXO multiset, four balances, per-address balances, gross balance, SyncedTo, mined staking/binding histories) must equal the ledger of the current best chain; histories contain forks of any depth with re-mined/dropped/double-spent rolled-back transactions",
+  "trusts the 300-line reference ledger and mass-core's chain database/address index; node announces only the final tip of a reorg; consensus maturity constants lowered per case", "§5 C01")
+
 NOT_APPLICABLE = {}
 
 def main():
